@@ -188,7 +188,9 @@ func (e NameEntry) Merge(nameEntry NameEntry) (newEntry NameEntry, modified bool
 	if modified && nameEntry.Expire != (time.Time{}) {
 		e.Expire = nameEntry.Expire
 	}
-	e.Type = nameEntry.Type
+	if nameEntry.Type != "" { // keep the known source when the update does not name one
+		e.Type = nameEntry.Type
+	}
 	return e, modified
 }
 
